@@ -452,17 +452,17 @@ func (rw *rewriter) selectStmt(s *ast.SelectStmt, label string, add func(p, e to
 			fmt.Fprintf(&hoist, "%s := %s; ", c, rw.text(comm.Chan))
 			cases = append(cases, fmt.Sprintf("%s.W(%s)", rw.use("vrt"), c))
 			if rw.isPure(comm.Value) {
-				stmt = fmt.Sprintf("%s <- %s", c, rw.text(comm.Value))
+				stmt = fmt.Sprintf("%s.SelSend(%s, %s)", rw.use("vrt"), c, rw.text(comm.Value))
 			} else {
 				v := rw.tmp("v")
 				fmt.Fprintf(&hoist, "%s := %s.Elem(%s, %s); ", v, rw.use("vrt"), c, rw.text(comm.Value))
-				stmt = fmt.Sprintf("%s <- %s", c, v)
+				stmt = fmt.Sprintf("%s.SelSend(%s, %s)", rw.use("vrt"), c, v)
 			}
 		case *ast.ExprStmt:
 			u := unparen(comm.X).(*ast.UnaryExpr)
 			fmt.Fprintf(&hoist, "%s := %s; ", c, rw.text(u.X))
 			cases = append(cases, fmt.Sprintf("%s.R(%s)", rw.use("vrt"), c))
-			stmt = "<-" + c
+			stmt = rw.use("vrt") + ".SelRecv(" + c + ")"
 		case *ast.AssignStmt:
 			u := unparen(comm.Rhs[0]).(*ast.UnaryExpr)
 			fmt.Fprintf(&hoist, "%s := %s; ", c, rw.text(u.X))
@@ -471,7 +471,11 @@ func (rw *rewriter) selectStmt(s *ast.SelectStmt, label string, add func(p, e to
 			for _, l := range comm.Lhs {
 				lhs = append(lhs, rw.text(l))
 			}
-			stmt = strings.Join(lhs, ", ") + " " + comm.Tok.String() + " <-" + c
+			fn := ".SelRecv("
+			if len(comm.Lhs) == 2 {
+				fn = ".SelRecv2("
+			}
+			stmt = strings.Join(lhs, ", ") + " " + comm.Tok.String() + " " + rw.use("vrt") + fn + c + ")"
 			if comm.Tok == token.DEFINE {
 				for _, l := range comm.Lhs {
 					if id, ok := l.(*ast.Ident); ok && id.Name != "_" {
